@@ -35,6 +35,7 @@ type ExecKnobs struct {
 	Preempt  int    `json:"preempt,omitempty"`
 	Procs    int    `json:"procs,omitempty"` // what the engine sees as GOMAXPROCS
 	Direct   bool   `json:"direct,omitempty"`   // the simulated driver forwards lookups with the engine's own channel (the real driver's channel / lock behaviour is not shielded); only call-level faults
+	Slow     *FaultSpec `json:"slow,omitempty"` // a driver call of the statement that is slow in simulated time (never failing); applied when no fault plan is given
 	CtxAware bool   `json:"ctxaware,omitempty"` // the simulated driver returns ctx.Err() once its context is done (a remote driver); off: it ignores the context like storage/memory
 }
 
@@ -62,13 +63,22 @@ func (h *faultHarness) Decode(b []byte) (any, error) {
 }
 
 func genKnobs(r *Rand) ExecKnobs {
+	k := genKnobs0(r)
+	if r.Chance(0.1) {
+		// slowness is not failure: whatever is judged about the statement holds with one of its driver calls slow
+		k.Slow = &FaultSpec{Call: r.Intn(6), Mode: []string{"slow", "slowmid"}[r.Intn(2)], J: r.Intn(4)}
+	}
+	return k
+}
+
+func genKnobs0(r *Rand) ExecKnobs {
 	return ExecKnobs{Memo: r.Chance(0.4), ChanSize: []int{0, 0, 1, 2, 7}[r.Intn(5)], BulkSize: []int{1, 2, 3, 10}[r.Intn(4)],
 		Sched: r.U64(), Permute: r.Bool(), Pace: r.Intn(3), Preempt: r.Intn(3), Procs: []int{1, 2, 4, 16}[r.Intn(4)], CtxAware: r.Chance(0.4), Direct: r.Chance(0.25)}
 }
 
 func (h *faultHarness) Gen(r *Rand, tier string, clean bool) any {
 	u := genUniverse(r, r.Range(4, 10), false, false)
-	c := &FaultCase{Graphs: genGraphs(r, u, 3), Knobs: genKnobs(r)}
+	c := &FaultCase{Graphs: genGraphs(r, u, 3), Knobs: genKnobs0(r)}
 	o := sopts{qopts: qopts{clean: true, maxClauses: 3, optional: 0.25, aliases: 0.2, bounds: 0.5}, group: 0.2, order: 0.2, limit: 0.2, global: 0.15, missing: 0.03}
 	c.Stmt = genStmt(r, u, graphNames(c.Graphs), o, []int{40, 10, 10, 4, 4, 14, 10, 4})
 	c.Text = c.Stmt.Text()
@@ -173,6 +183,9 @@ func execStatement(t *testing.T, gs []GraphData, text string, k ExecKnobs, fault
 		if inner == nil {
 			inner = buildStore(ctx, gs)
 		}
+		if faults == nil && k.Slow != nil && !k.Direct {
+			faults = []FaultSpec{*k.Slow}
+		}
 		ss = newSimStore(inner, simStoreCfg{Permute: k.Permute, Pace: k.Pace, Faults: faults, CtxAware: k.CtxAware, Cancel: cancel, Transparent: k.Direct})
 		var st storage.Store = ss
 		if k.Memo {
@@ -192,6 +205,12 @@ func execStatement(t *testing.T, gs []GraphData, text string, k ExecKnobs, fault
 		})
 	})
 	if ss != nil {
+		if k.Slow != nil && len(ss.cfg.Faults) == 1 && ss.cfg.Faults[0] == *k.Slow {
+			// the slow call came from the execution knobs, not from a harness that counts its own faults
+			for kind, n := range ss.fired {
+				simAgg.stats["fault_knob_"+kind] += int64(n)
+			}
+		}
 		er.trace, er.fired, er.failed, er.probes = ss.trace, ss.fired, ss.failed, ss.probes
 	}
 	er.tapeRec = tape.Rec
